@@ -243,6 +243,8 @@ def finding_matches(f, sig, obj):
        <key>_re: pattern     regex search in sig[<key>] (sql, src, exec_error, panic_msg, reason, ...)
        <key>: value|[values] equality / membership"""
     m = f.get("match", {})
+    if isinstance(m, list):          # alternatives: the finding shows differently in different checks
+        return any(finding_matches({"match": alt}, sig, obj) for alt in m)
     for k, want in m.items():
         if k == "tags_all":
             if not set(want) <= set(sig.get("tags", [])):
